@@ -81,4 +81,35 @@ def replay(args, outdir):
 
 
 def replay_reader(args, outdir):
-    return dict(reproduced=False, note='reader lemma: replay through the harness only')
+    """real FastqIterator over two real (plain text) files"""
+    import singlecellmultiomics.fastqProcessing.fastqIterator as FI
+    a = args['cex']
+    n1, n2, blank_at = a['n1'], a['n2'], a['blank_at']
+    lines = [['@a%d' % k if k % 4 == 0 else 'x%d' % k for k in range(n1)], ['@b%d' % k if k % 4 == 0 else 'y%d' % k for k in range(n2)]]
+    if 0 <= blank_at < n1:
+        lines[0][blank_at] = ''
+    d = tempfile.mkdtemp(prefix='c01r', dir=os.environ.get('VERIF_SCRATCH') or None)
+    try:
+        paths = []
+        for f in (0, 1):
+            p = os.path.join(d, 'r%d.fastq' % f)
+            with open(p, 'w') as h:
+                h.write(''.join(l + '\n' for l in lines[f]))
+            paths.append(p)
+        got = list(FI.FastqIterator(*paths))
+    finally:
+        shutil.rmtree(d, ignore_errors=True)
+    exp, k = [], 0
+    while True:
+        recs = []
+        for f in (0, 1):
+            ls = lines[f][4 * k:4 * k + 4]
+            recs.append(FI.FastqRecord(*(ls + [''] * (4 - len(ls)))))
+        if any(len(r.header) == 0 for r in recs):
+            break
+        exp.append(tuple(recs)); k += 1
+    if got == exp:
+        return dict(reproduced=False)
+    clause = 'stops_early' if len(got) < len(exp) else ('reads_past_end' if len(got) > len(exp) else 'mates_mispaired')
+    return dict(reproduced=True, signature='L2_lockstep_reader:%s' % clause,
+                what='FastqIterator over files of %d / %d lines (empty line at %d of file 1): %d records, expected %d' % (n1, n2, blank_at, len(got), len(exp)))
